@@ -18,6 +18,7 @@ pub mod cqueue {
     pub struct Entry {
         pub(crate) user_data: u64,
         pub(crate) result: i32,
+        pub(crate) flags: u32,
     }
     impl Entry {
         pub fn user_data(&self) -> u64 {
@@ -27,7 +28,7 @@ pub mod cqueue {
             self.result
         }
         pub fn flags(&self) -> u32 {
-            0
+            self.flags
         }
     }
 }
@@ -247,8 +248,26 @@ impl IoUring {
                 cqueue::Entry {
                     user_data: s.user_data,
                     result,
+                    // a zero-copy send that was accepted announces a second completion
+                    flags: if s.opcode == opcode::SendZc::CODE && result >= 0 { 2 /* IORING_CQE_F_MORE */ } else { 0 },
                 },
             ));
+            if s.opcode == opcode::SendZc::CODE && result >= 0 {
+                // zero-copy sends post a second completion with the same user_data once the kernel no
+                // longer needs the buffer: result 0, IORING_CQE_F_NOTIF
+                sim::count("uring.zc-notification");
+                r.seq += 1;
+                let seq = r.seq;
+                r.pending.push((
+                    now.saturating_add(delay).saturating_add(2_500_000),
+                    seq,
+                    cqueue::Entry {
+                        user_data: s.user_data,
+                        result: 0,
+                        flags: 8, /* IORING_CQE_F_NOTIF */
+                    },
+                ));
+            }
             n += 1;
         }
         Ok(n)
